@@ -76,7 +76,7 @@ def run(tier):
     cs = cfgs(tier)
     rp = l3.Replay(b, v, cs, "checks.c04:judge", variants=2 if tier == "quick" else 4)
     states = trans = 0
-    plan = [("RedactorEW", {}), ("RedactorFree", {"FreeDepth": "1"}),
+    plan = [("RedactorEW", {"EWDamaged": "TRUE"}), ("RedactorFree", {"FreeDepth": "1"}),
             ("RedactorTW", {"TWShapeKinds": '{"s","sa","os","aos","aas","aaos"}' if tier == "quick" else "{}"})]
     if tier == "thorough":
         plan.append(("RedactorFree", {"FreeDepth": "2", "FreeSlots": '{"filter","pipeline"}'}))
